@@ -192,7 +192,19 @@ def run(ctx):
         if len(res.samples) < 4 and len(present) > 6:
             res.sample({"cls": cls, "marshal": m["marshal"][:240]})
 
-    # batches
+    # batches: the Lean batching model on the real octets (batch = concatenation written by serialize, unbatch = chunks)
+    allb = [b for o in outs for b in o["batches"]]
+    blines = []
+    for b in allb:
+        op = "json" if b["ser"].startswith("json") else "bin"
+        blines += [f"batch.{op} {','.join(b['parts'])}", f"unbatch.{op} {b['payload'] or '-'}"]
+    bans = ctx.driver.run(blines)
+    for i, b in enumerate(allb):
+        if bans[2 * i] != (b["payload"] or "-"):
+            res.correspondence_breaks.append({"stream": "batch-model", "ser": b["ser"], "n": b["n"], "real": b["payload"][:200], "model": bans[2 * i][:200]})
+        if bans[2 * i + 1] != "ok " + ",".join(b["parts"]):
+            res.correspondence_breaks.append({"stream": "unbatch-model", "ser": b["ser"], "n": b["n"], "real_parts": b["parts"][:3], "model": bans[2 * i + 1][:200]})
+        res.evaluations += 2
     for o in outs:
         for b in o["batches"]:
             res.evaluations += 1
